@@ -13,40 +13,48 @@
    C20_no_strand / C20_quiescent therefore carry `st s = c_streamOpened` as a hypothesis and C20_stop is
    the counterpart.  `cstate s = 0` says that no local Close() has been issued (its first action in
    callback mode is the store of callbackWaitExit); after a Close() the remaining data is dropped by design.
-   The theorems are about a stream whose callbacks are installed before the first event (`init true`):
-   the two `_late_` statements below show what fails when SetCallbacks comes later. *)
+   Callbacks may be installed before the first event (`init true`) or later by SetCallbacks (`init false`
+   plus the WSet thread): since the fixes "SetCallbacks no longer stores callbackInProcess = 0" and
+   "SetCallbacks starts the hand-off itself" the theorems hold for both (cb0 is universally quantified);
+   the two former refutations (C20_late_no_strand_refuted, C20_late_serial_refuted) are now the theorems
+   C20_late_no_strand / C20_late_serial, and their witness schedules stay in the harness as regression
+   scenarios under the old signatures. *)
 From Coq Require Import List ZArith Lia Bool Arith.
 From Shm Require Import Gen.Consts Model.StreamState Proofs.StreamStateProofs.
 Import ListNotations.
 Open Scope Z_scope.
 
-(* at most one thread is between winning callbackInProcess and clearing it (the event loop between its
-   CAS and the spawn counts for the goroutine it is about to start); OnData (g_run) executes only in
-   such a thread, hence never twice at the same time *)
-Theorem C20_serial : forall inb ncl scr ups sched,
-  let s := run sched (init true inb ncl scr ups) in
-  cz g_own (gors s) + e_proxy (epc s) <= 1 /\ cz g_run (gors s) <= 1 /\
+(* at most one thread is between winning callbackInProcess and clearing it (the event loop / SetCallbacks
+   between the CAS and the spawn count for the goroutine they are about to start); OnData (g_run) executes
+   only in such a thread, hence never twice at the same time *)
+Theorem C20_serial : forall cb0 inb nc scr ups sched,
+  let s := run sched (init cb0 inb nc scr ups) in
+  cz g_own (gors s) + e_proxy (epc s) + s_proxy (spc s) <= 1 /\ cz g_run (gors s) <= 1 /\
   (forall i j gi gj, nth_error (gors s) i = Some gi -> nth_error (gors s) j = Some gj ->
                      g_own gi = true -> g_own gj = true -> i = j).
 Proof. exact serial. Qed.
 Print Assumptions C20_serial.
 
-(* pending data of an open stream with no Close() issued and no owner of the flag is never stranded:
-   either the event loop is between its add and its CAS/spawn, or a goroutine is between its store of 0
-   and its re-check of pending (GLdCs/GLen/GCas) — in both cases that thread's next steps take the flag *)
-Theorem C20_no_strand : forall inb ncl scr ups sched,
-  let s := run sched (init true inb ncl scr ups) in
-  pending s <> [] -> st s = c_streamOpened -> cstate s = 0 ->
+(* with callbacks installed, pending data of an open stream with no Close() issued and no owner of the flag is
+   never stranded: the event loop is between its add and its CAS/spawn, or SetCallbacks is between installing
+   the callbacks and its spawn, or a goroutine is between its store of 0 and its re-check of pending
+   (GLdCs/GLen/GCas) — in each case that thread's next steps take the flag *)
+Theorem C20_no_strand : forall cb0 inb nc scr ups sched,
+  let s := run sched (init cb0 inb nc scr ups) in
+  cbset s = true -> pending s <> [] -> st s = c_streamOpened -> cstate s = 0 ->
   (forall i g, nth_error (gors s) i = Some g -> g_own g = false) ->
   (epc s = EChk \/ epc s = EGetCb \/ epc s = ECas \/ epc s = EWgAdd \/ epc s = ESpawn) \/
+  (spc s = SCas \/ spc s = SWgAdd \/ spc s = SSpawn) \/
   (exists i g, nth_error (gors s) i = Some g /\ g_re g = true).
 Proof. exact no_strand. Qed.
 Print Assumptions C20_no_strand.
 
-(* corollary at quiescence (event loop idle, every goroutine finished) with the stream open: nothing is
-   left in pending or recvBuf and the bytes consumed by the OnData calls are exactly the bytes that arrived *)
-Theorem C20_quiescent : forall inb ncl scr ups sched,
-  let s := run sched (init true inb ncl scr ups) in
+(* corollary at quiescence (event loop idle, SetCallbacks not in progress, every goroutine finished) with
+   callbacks installed and the stream open: nothing is left in pending or recvBuf and the bytes consumed by the
+   OnData calls are exactly the bytes that arrived — whether they arrived before or after SetCallbacks *)
+Theorem C20_quiescent : forall cb0 inb nc scr ups sched,
+  let s := run sched (init cb0 inb nc scr ups) in
+  cbset s = true -> (spc s = SIdle \/ spc s = SDone) ->
   epc s = EIdle -> (forall i g, nth_error (gors s) i = Some g -> g = GExit) ->
   st s = c_streamOpened -> cstate s = 0 ->
   pending s = [] /\ recv s = [] /\ consumed s = arrived s.
@@ -54,8 +62,8 @@ Proof. exact quiescent. Qed.
 Print Assumptions C20_quiescent.
 
 (* order, exactly once *)
-Theorem C20_order_once : forall cb0 inb ncl scr ups sched,
-  let s := run sched (init cb0 inb ncl scr ups) in
+Theorem C20_order_once : forall cb0 inb nc scr ups sched,
+  let s := run sched (init cb0 inb nc scr ups) in
   arrived s = concat (map snd (chunks s)) ++ concat (pending s) /\
   moved s = concat (map snd (filter fst (chunks s))) /\
   (st s <> c_streamClosed -> arrived s = consumed s ++ recv s ++ concat (pending s)).
@@ -64,44 +72,44 @@ Print Assumptions C20_order_once.
 
 (* once the state has left `opened` no further OnData begins, except the single one whose IsOpen()
    check had already passed (g_cb; at most one by C20_serial) *)
-Theorem C20_stop : forall cb0 inb ncl scr ups sched sched',
-  let s := run sched (init cb0 inb ncl scr ups) in
+Theorem C20_stop : forall cb0 inb nc scr ups sched sched',
+  let s := run sched (init cb0 inb nc scr ups) in
   st s <> c_streamOpened ->
   let s' := run sched' s in
   st s' <> c_streamOpened /\ olen s' + cz g_cb (gors s') <= olen s + cz g_cb (gors s).
 Proof. exact stop. Qed.
 Print Assumptions C20_stop.
 
-(* ---- callbacks installed AFTER data arrived (AcceptStream then SetCallbacks): both statements fail ---- *)
-Definition C20_late_no_strand : Prop := forall inb scr sched,
+(* ---- callbacks installed AFTER data arrived (AcceptStream then SetCallbacks): formerly refuted, now theorems ---- *)
+Theorem C20_late_no_strand : forall inb scr sched,
   let s := run sched (init false inb 0 scr []) in
   cbset s = true -> spc s = SDone -> epc s = EIdle -> (forall i g, nth_error (gors s) i = Some g -> g = GExit) ->
-  st s = c_streamOpened -> pending s = [] /\ recv s = [].
-Theorem C20_late_no_strand_refuted : ~ C20_late_no_strand.
+  st s = c_streamOpened -> cstate s = 0 -> pending s = [] /\ recv s = [].
 Proof.
-  intros H. specialize (H [EData [7]] [] [WEv; WEv; WEv; WSet; WSet]).
-  vm_compute in H. destruct H as [H _]; auto; try discriminate.
-  intros [|i] g Hg; discriminate.
+  intros inb scr sched s Hcb Hsp He Hg Hst Hcs.
+  destruct (quiescent false inb 0 scr [] sched Hcb (or_intror Hsp) He Hg Hst Hcs) as [H1 [H2 _]]. split; assumption.
 Qed.
-Print Assumptions C20_late_no_strand_refuted.
+Print Assumptions C20_late_no_strand.
 
-Definition C20_late_serial : Prop := forall inb scr sched,
+Theorem C20_late_serial : forall inb scr sched,
   let s := run sched (init false inb 0 scr []) in cz g_run (gors s) <= 1.
-Theorem C20_late_serial_refuted : ~ C20_late_serial.
-Proof.
-  intros H.
-  specialize (H [EData [1]; EData [2]] [(0%nat, false); (0%nat, false)]
-    ([WSet] ++ repeat WEv 6 ++ repeat (WGor 0) 3 ++ [WSet] ++ repeat WEv 6 ++ repeat (WGor 1) 3)).
-  vm_compute in H. apply H. reflexivity.
-Qed.
-Print Assumptions C20_late_serial_refuted.
+Proof. intros inb scr sched. apply (serial false inb 0 scr [] sched). Qed.
+Print Assumptions C20_late_serial.
 
-(* non-vacuity: three messages; the second arrives while OnData runs, the third just after the goroutine
+(* non-vacuity 1: three messages; the second arrives while OnData runs, the third just after the goroutine
    cleared the flag and before its re-check; OnData consumes 1, 0, 2, then everything; the run is quiescent,
    open, and satisfies the hypotheses of C20_quiescent *)
 Example C20_example_run :
   let s := run (repeat WEv 6 ++ repeat (WGor 0) 3 ++ repeat WEv 4 ++ repeat (WGor 0) 12 ++ repeat WEv 3 ++ repeat (WGor 0) 40 ++ repeat WEv 6 ++ repeat (WGor 1) 12)
                (init true [EData [1; 2]; EData [3]; EData [4; 5; 6]] 0 [(1%nat, false); (0%nat, false); (2%nat, false)] []) in
-  epc s = EIdle /\ st s = c_streamOpened /\ cstate s = 0 /\ pending s = [] /\ recv s = [] /\
+  cbset s = true /\ epc s = EIdle /\ st s = c_streamOpened /\ cstate s = 0 /\ pending s = [] /\ recv s = [] /\
   consumed s = [1; 2; 3; 4; 5; 6] /\ offers s <> [] /\ Forall (fun g => g = GExit) (gors s).
 Proof. vm_compute. repeat split; try discriminate; repeat constructor. Qed.
+
+(* non-vacuity 2 (the former witness of the late-SetCallbacks stranding): the message arrives before
+   SetCallbacks; SetCallbacks itself now starts the goroutine and the byte is consumed *)
+Example C20_late_example_run :
+  let s := run ([WEv; WEv; WEv] ++ repeat WSet 4 ++ repeat (WGor 0) 12) (init false [EData [7]] 0 [] []) in
+  cbset s = true /\ spc s = SDone /\ epc s = EIdle /\ st s = c_streamOpened /\ pending s = [] /\ recv s = [] /\
+  consumed s = [7] /\ gors s = [GExit].
+Proof. vm_compute. repeat split. Qed.
